@@ -6,7 +6,7 @@
 use crate::refcodec::{self as rc, AckForm, AckKind, CPacket, Prop, SPacket};
 use crate::sim::*;
 use crate::spec::*;
-use std::collections::{BTreeSet, VecDeque};
+use std::collections::{BTreeSet, HashMap, VecDeque};
 
 #[derive(Clone, Copy, PartialEq, Eq, Debug, Hash, PartialOrd, Ord)]
 pub enum Kind {
@@ -161,6 +161,7 @@ pub struct World {
     pub term_checked: bool,
     pub disc_wire_idx: Option<usize>,
     pub inbound_seq: usize,
+    pub pubrel_seq: usize,
     unsettled_completion: bool,
     unsettled_submissions: Vec<usize>,
     pub ctx_dropped: bool,
@@ -191,6 +192,8 @@ pub struct World {
     pub size_mix: bool,
     /// every third publish carries a content type and a user property of boundary sizes (see `rich_options`)
     pub rich_pubs: bool,
+    /// which publishes (request index modulo 3) carry them
+    pub rich_phase: usize,
     /// every second subscribe() carries three topic filters (its SUBACK then has three reason codes, granted and refused mixed)
     pub multi_filter: bool,
     /// every fourth publish carries a payload of 70 000 bytes or more
@@ -202,6 +205,10 @@ pub struct World {
 #[derive(Default, Clone, Debug)]
 pub struct Counters {
     pub sized_inbound: u64,
+    pub resent_with_options: u64,
+    pub pubs_set_twice: u64,
+    pub pubrel_not_found: u64,
+    pub long_ack_props: u64,
     pub acks_delivered: u64,
     pub acks_matched: u64,
     pub completions_checked: u64,
@@ -241,7 +248,18 @@ const P_STALL: &[&str] = &["C03", "C04", "C16"];
 const P_ANY: &[&str] = &["*"];
 
 pub fn ack_reason_string(n: u64) -> String {
-    format!("rs{n}")
+    // every third full-form acknowledgement has a property section of 128 bytes or more (two-byte property length),
+    // one in 24 of more than 16 383 bytes (three-byte property length)
+    let mut s = format!("rs{n}");
+    let target = match n % 24 {
+        7 => 16_390 + (n % 50) as usize,
+        x if x % 3 == 1 => [110usize, 118, 125, 128, 130, 200, 300, 1000][(n / 3) as usize % 8],
+        _ => 0,
+    };
+    while s.len() < target {
+        s.push((b'a' + (s.len() % 23) as u8) as char);
+    }
+    s
 }
 
 impl World {
@@ -313,6 +331,7 @@ impl World {
             term_checked: false,
             disc_wire_idx: None,
             inbound_seq: 0,
+            pubrel_seq: 0,
             unsettled_completion: false,
             unsettled_submissions: Vec::new(),
             ctx_dropped: false,
@@ -333,6 +352,7 @@ impl World {
             reconnects: 0,
             size_mix: false,
             rich_pubs: false,
+            rich_phase: 2,
             multi_filter: false,
             huge_pubs: false,
             payload_sizes: std::collections::HashMap::new(),
@@ -376,7 +396,7 @@ impl World {
                     _ => 2,
                 };
                 let mut sp = PubSpec::simple(q, &format!("o/{idx}"), &self.plain_payload(idx));
-                if self.rich_pubs && idx % 3 == 2 {
+                if self.rich_pubs && idx % 3 == self.rich_phase {
                     // rarely used options whose encoded size crosses the 1-/2-byte property-length boundary
                     let (ct, up) = Self::rich_options(idx);
                     sp.content_type = Some(ct);
@@ -426,12 +446,12 @@ impl World {
 
     /// RETAIN flag the PUBLISH of op `i` must carry (set together with the rarely used options)
     pub fn want_pub_retain(&self, i: usize) -> bool {
-        self.rich_pubs && i % 3 == 2 && matches!(self.m[i].kind, Kind::Pub0 | Kind::Pub1 | Kind::Pub2)
+        self.rich_pubs && i % 3 == self.rich_phase && matches!(self.m[i].kind, Kind::Pub0 | Kind::Pub1 | Kind::Pub2)
     }
 
     /// properties the PUBLISH of op `i` must carry (content type first, then user properties)
     pub fn want_pub_props(&self, i: usize) -> Vec<Prop> {
-        if self.rich_pubs && i % 3 == 2 && matches!(self.m[i].kind, Kind::Pub0 | Kind::Pub1 | Kind::Pub2) {
+        if self.rich_pubs && i % 3 == self.rich_phase && matches!(self.m[i].kind, Kind::Pub0 | Kind::Pub1 | Kind::Pub2) {
             let (ct, up) = Self::rich_options(i);
             let mut v = vec![Prop::str(3, &ct)];
             v.extend(up.iter().map(|(k, val)| Prop::pair(k, val)));
@@ -494,6 +514,11 @@ impl World {
         let h = if self.sim.handles.get(h).map(|x| x.is_some()).unwrap_or(false) { h } else { (0..self.sim.handles.len()).find(|&i| self.sim.handles[i].is_some()).expect("harness: no handle left") };
         let idx = self.sim.ops.len();
         let spec = self.spec_for(kind, idx);
+        if let OpSpec::Publish(p) = &spec {
+            if p.set_twice() {
+                self.counters.pubs_set_twice += 1;
+            }
+        }
         let i = self.sim.create_op(h, spec);
         let m = self.new_opm(kind);
         self.m.push(m);
@@ -594,7 +619,11 @@ impl World {
         let id = self.m[i].pkt_id.expect("harness: ack for op without id");
         let kind = self.m[i].kind;
         let (rs, up): (Option<String>, UP) = if form == 1 {
-            (Some(ack_reason_string(n)), vec![(format!("k{n}"), format!("v{n}"))])
+            let rs = ack_reason_string(n);
+            if rs.len() > 110 {
+                self.counters.long_ack_props += 1;
+            }
+            (Some(rs), vec![(format!("k{n}"), format!("v{n}"))])
         } else {
             (None, vec![])
         };
@@ -810,10 +839,27 @@ impl World {
         self.sim.feed_packet(&SPacket::Publish(p));
     }
 
+    /// PUBREL for `id`. Its form varies from one PUBREL to the next over everything a broker may send: the two-byte form,
+    /// reason 0 or 0x92 (Packet Identifier not found) alone, and either reason followed by a reason string and a user property.
+    /// Whatever the reason, the exchange for `id` is over on the broker's side: PUBCOMP is due and the identifier is free again.
     pub fn in_pubrel(&mut self, id: u16) {
         self.expected_acks.push_back((AckKind::Pubcomp, id, "pubrel"));
         self.inbound_qos2.remove(&id);
-        self.sim.feed_packet(&SPacket::Ack { kind: AckKind::Pubrel, id, reason: 0, props: vec![], form: AckForm::Short2 });
+        let v = (self.pubrel_seq + id as usize) % 5;
+        self.pubrel_seq += 1;
+        let n = self.pubrel_seq;
+        let full = vec![Prop::str(31, &format!("rel{n}")), Prop::pair(&format!("rk{n}"), "rv")];
+        let (reason, props, form) = match v {
+            0 => (0, vec![], AckForm::Short2),
+            1 => (0x92, vec![], AckForm::Short3),
+            2 => (0, full, AckForm::Full),
+            3 => (0x92, full, AckForm::Full),
+            _ => (0, vec![], AckForm::Short3),
+        };
+        if reason != 0 {
+            self.counters.pubrel_not_found += 1;
+        }
+        self.sim.feed_packet(&SPacket::Ack { kind: AckKind::Pubrel, id, reason, props, form });
     }
 
     // ------------------------------------------------------------ termination causes
@@ -1124,6 +1170,9 @@ impl World {
                             }
                             let mut got_props = p.props.clone();
                             got_props.sort_by_key(|x| (x.id != 3, format!("{:?}", x)));
+                            if self.want_pub_retain(i) {
+                                self.counters.resent_with_options += 1;
+                            }
                             if p.id != self.m[i].pkt_id || p.qos != want_q || p.payload != self.plain_payload(i) || p.retain != self.want_pub_retain(i) || got_props != self.want_pub_props(i) {
                                 self.viol(&["C17"], "C17/resent-publish-differs".into(), format!("op{i}: re-sent {} differs from the original (id {:?}, qos {want_q})", CPacket::Publish(p.clone()).brief(), self.m[i].pkt_id));
                             }
@@ -1151,6 +1200,23 @@ impl World {
                 },
                 Ok(other) => {
                     self.viol(&["C17"], format!("C17/unexpected-resend/{}", other.type_name()), format!("{} written on the resumed connection before any new request", other.brief()));
+                }
+            }
+        }
+        // C11: whatever is sent again, no two exchanges on the resumed connection may share a packet identifier
+        {
+            let mut seen: HashMap<u16, String> = HashMap::new();
+            for wp in resent.iter() {
+                let (pid, what) = match &wp.pkt {
+                    Ok(CPacket::Publish(p)) if p.qos > 0 => (p.id.unwrap_or(0), format!("PUBLISH {}", p.topic)),
+                    Ok(CPacket::Ack(a)) if a.kind == AckKind::Pubrel => (a.id, "PUBREL".to_string()),
+                    _ => continue,
+                };
+                if pid == 0 {
+                    self.viol(P_C11, "C11/zero-packet-id/resent".into(), format!("re-sent {what} carries packet identifier 0"));
+                }
+                if let Some(prev) = seen.insert(pid, what.clone()) {
+                    self.viol(P_C11, "C11/duplicate-packet-id/resent".into(), format!("the resumed connection carries two unfinished exchanges with packet identifier {pid}: {prev} and {what}"));
                 }
             }
         }
